@@ -6,6 +6,7 @@ package graph
 // decides whether the backends of one rule agree on their BackendTLSPolicy, and the policy lookup.
 
 import (
+	apiv1 "k8s.io/api/core/v1"
 	"k8s.io/apimachinery/pkg/types"
 	gatewayv1 "sigs.k8s.io/gateway-api/apis/v1"
 )
@@ -35,4 +36,19 @@ func VerifC16FindAcceptedHostnames(listenerHostname string, routeHostnames []str
 		hs = append(hs, gatewayv1.Hostname(h))
 	}
 	return findAcceptedHostnames(lh, hs)
+}
+
+// VerifC16ResolveSeq creates ONE secretResolver over the given cluster Secrets and resolves the keys in order (as
+// buildListeners does for the HTTPS listeners of a Gateway); the result says for each call whether it succeeded.
+func VerifC16ResolveSeq(secrets []*apiv1.Secret, keys []types.NamespacedName) []bool {
+	m := make(map[types.NamespacedName]*apiv1.Secret, len(secrets))
+	for _, s := range secrets {
+		m[types.NamespacedName{Namespace: s.Namespace, Name: s.Name}] = s
+	}
+	r := newSecretResolver(m)
+	out := make([]bool, 0, len(keys))
+	for _, k := range keys {
+		out = append(out, r.resolve(k) == nil)
+	}
+	return out
 }
